@@ -59,6 +59,7 @@ type inliner struct {
 	c       *Ctx
 	cand    map[*ssa.Function]bool
 	counter int
+	allowClosure bool
 	touched []*ssa.Function
 	Log     []string
 }
@@ -390,7 +391,7 @@ func (il *inliner) inlinable(g *ssa.Function) (bool, string) {
 	if len(g.Blocks) == 0 {
 		return false, "no body"
 	}
-	if len(g.FreeVars) > 0 || g.Parent() != nil {
+	if (len(g.FreeVars) > 0 || g.Parent() != nil) && !il.allowClosure {
 		return false, "closure"
 	}
 	if g.Signature.Variadic() {
@@ -533,6 +534,11 @@ func (il *inliner) inlineCall(f *ssa.Function, call *ssa.Call, g *ssa.Function) 
 	vmap := map[ssa.Value]ssa.Value{}
 	for k, p := range g.Params {
 		vmap[p] = call.Call.Args[k]
+	}
+	if mc := localClosure(call.Call.Value); mc != nil && mc.Fn == ssa.Value(g) {
+		for k, fv := range g.FreeVars {
+			vmap[fv] = mc.Bindings[k]
+		}
 	}
 	blocks, bmap := il.cloneBody(g, f, vmap, g.Recover)
 	entry := bmap[g.Blocks[0]]
@@ -729,6 +735,7 @@ func (c *Ctx) normalizeHelpers(all map[*ssa.Function]bool) map[*ssa.Function]boo
 		}
 	}()
 	if len(il.cand) == 0 {
+		il.finishUp(modFns, nil)
 		c.memo["inline.log"] = il.Log
 		return nil
 	}
@@ -880,30 +887,7 @@ func (c *Ctx) normalizeHelpers(all map[*ssa.Function]bool) map[*ssa.Function]boo
 			kill(g)
 		}
 	}
-	// in rewritten functions, an interface method call whose receiver was
-	// made from a concrete value right there (a parameter of interface type
-	// replaced by its argument) is the call of that type's method
-	for _, f := range il.touched {
-		il.devirtualize(f)
-		for _, af := range f.AnonFuncs {
-			il.devirtualize(af)
-		}
-	}
-	// a rewritten function that is not well-formed SSA is an internal failure
-	changed := map[*ssa.Function]bool{}
-	for _, l := range il.touched {
-		changed[l] = true
-	}
-	for f := range changed {
-		if errs := sanity(f); len(errs) > 0 {
-			panic("helper expansion produced malformed SSA: " + errs[0])
-		}
-		for _, af := range f.AnonFuncs {
-			if errs := sanity(af); len(errs) > 0 {
-				panic("helper expansion produced malformed SSA: " + errs[0])
-			}
-		}
-	}
+	il.finishUp(modFns, dead)
 	sort.Strings(il.Log)
 	c.memo["inline.log"] = il.Log
 	return dead
@@ -1127,5 +1111,123 @@ func (il *inliner) devirtualize(f *ssa.Function) {
 	}
 	if did {
 		finishFunc(f)
+	}
+}
+
+// localClosure: v is a closure made in the same function: the MakeClosure
+// itself or the load of a local that is assigned exactly once, with it.
+func localClosure(v ssa.Value) *ssa.MakeClosure {
+	switch x := v.(type) {
+	case *ssa.MakeClosure:
+		return x
+	case *ssa.UnOp:
+		al, ok := x.X.(*ssa.Alloc)
+		if !ok {
+			return nil
+		}
+		var mc *ssa.MakeClosure
+		n := 0
+		for _, r := range *al.Referrers() {
+			switch y := r.(type) {
+			case *ssa.Store:
+				if y.Addr == ssa.Value(al) {
+					n++
+					mc, _ = y.Val.(*ssa.MakeClosure)
+				}
+			case *ssa.UnOp:
+			default:
+				return nil // address escapes
+			}
+		}
+		if n == 1 {
+			return mc
+		}
+	}
+	return nil
+}
+
+// finishUp: closure expansion at calls inside loops, devirtualisation and
+// validation of everything that was rewritten.
+func (il *inliner) finishUp(modFns []*ssa.Function, dead map[*ssa.Function]bool) {
+	// a local closure called inside a loop (`add := func(name …){ flags.Var(…) }` applied
+	// to every row of a table) is expanded at those calls
+	il.allowClosure = true
+	for _, f := range modFns {
+		if len(f.Blocks) == 0 || dead[f] {
+			continue
+		}
+		for guard := 0; guard < 50; guard++ {
+			inCycle := blocksInCycles(f)
+			var site *ssa.Call
+			var g *ssa.Function
+			for _, b := range f.Blocks {
+				if !inCycle[b] {
+					continue
+				}
+				for _, in := range b.Instrs {
+					call, ok := in.(*ssa.Call)
+					if !ok || site != nil {
+						continue
+					}
+					mc := localClosure(call.Call.Value)
+					if mc == nil {
+						continue
+					}
+					fn, _ := mc.Fn.(*ssa.Function)
+					if fn == nil || fn.Parent() != f || len(fn.AnonFuncs) > 0 {
+						continue
+					}
+					if ok, _ := il.inlinable(fn); !ok {
+						continue
+					}
+					// the closure must not call itself
+					selfRef := false
+					for _, b2 := range fn.Blocks {
+						for _, in2 := range b2.Instrs {
+							if c2, ok := in2.(*ssa.Call); ok {
+								if m2 := localClosure(c2.Call.Value); m2 != nil && m2.Fn == ssa.Value(fn) {
+									selfRef = true
+								}
+							}
+						}
+					}
+					if selfRef {
+						continue
+					}
+					site, g = call, fn
+				}
+			}
+			if site == nil {
+				break
+			}
+			il.inlineCall(f, site, g)
+			il.touched = append(il.touched, f)
+			il.Log = append(il.Log, fmt.Sprintf("expanded closure %s at its call inside a loop of %s", g, f))
+		}
+	}
+	il.allowClosure = false
+	// in rewritten functions, an interface method call whose receiver was
+	// made from a concrete value right there (a parameter of interface type
+	// replaced by its argument) is the call of that type's method
+	for _, f := range il.touched {
+		il.devirtualize(f)
+		for _, af := range f.AnonFuncs {
+			il.devirtualize(af)
+		}
+	}
+	// a rewritten function that is not well-formed SSA is an internal failure
+	changed := map[*ssa.Function]bool{}
+	for _, l := range il.touched {
+		changed[l] = true
+	}
+	for f := range changed {
+		if errs := sanity(f); len(errs) > 0 {
+			panic("helper expansion produced malformed SSA: " + errs[0])
+		}
+		for _, af := range f.AnonFuncs {
+			if errs := sanity(af); len(errs) > 0 {
+				panic("helper expansion produced malformed SSA: " + errs[0])
+			}
+		}
 	}
 }
